@@ -345,6 +345,12 @@ func callDesc(p *Prog, ci ssa.CallInstruction) string {
 
 // checkErrFlow verifies O2..O4 for error value ev of call c in fn. Returns "" if fine.
 func checkErrFlow(p *Prog, fn *ssa.Function, c *ssa.Call, ev ssa.Value, sensitive func(ssa.CallInstruction) bool) string {
+	return checkErrFlowOpt(p, fn, c, ev, sensitive, false)
+}
+
+// checkErrFlowOpt: with allowConverted, a failure path may also return a fresh positioned error built
+// by the package's own error constructors (the repo's conversion idiom) instead of the error itself.
+func checkErrFlowOpt(p *Prog, fn *ssa.Function, c *ssa.Call, ev ssa.Value, sensitive func(ssa.CallInstruction) bool, allowConverted bool) string {
 	if sensitive == nil {
 		sensitive = func(ssa.CallInstruction) bool { return false }
 	}
@@ -354,7 +360,18 @@ func checkErrFlow(p *Prog, fn *ssa.Function, c *ssa.Call, ev ssa.Value, sensitiv
 		if errIdx < 0 || errIdx >= len(ret.Results) {
 			return false
 		}
-		return D[retVal(ret, errIdx)]
+		v := retVal(ret, errIdx)
+		if D[v] {
+			return true
+		}
+		if allowConverted {
+			if cc, ok := v.(*ssa.Call); ok {
+				if f := cc.Call.StaticCallee(); f != nil && p.InPkg(f) && (f.Name() == "NewExecuteError" || f.Name() == "NewSyntaxError") {
+					return true
+				}
+			}
+		}
+		return false
 	}
 	if errIdx < 0 {
 		return "O2: enclosing function has no error result to return the storage error through"
